@@ -130,6 +130,9 @@ func (g *c20Gen) from() string {
 	if g.pending != "" && g.r.Intn(6) == 0 {
 		return g.pending
 	}
+	if g.r.Intn(10) == 0 {
+		return []string{LongAcct(), VeryLongAcct()}[g.r.Intn(2)]
+	}
 	return g.holder
 }
 
